@@ -187,4 +187,71 @@ theorem resolve_absolute (G : Grammar) (ok : Grammar.Ok G) (okp : Grammar.OkPath
     | cons c t => rfl
   simp [hs, ha, hsb, hab, hpe, hp]
 
+/-- **§5.2.2, absolute-path reference** against a base *without* authority, when the dot-free
+path needs no shield (its first segment is not empty) -/
+theorem resolve_absolute_no_authority (G : Grammar) (ok : Grammar.Ok G) (okp : Grammar.OkPath G) (base r : Text)
+    (hb : Matches G.full base) (hr : Matches G.reference r)
+    (hs : (split r).scheme = none) (ha : (split r).authority = none) (hp : isAbs (split r).path = true)
+    (hab : (split base).authority = none)
+    (hns : needsShield false false (split r).path = false) :
+    Ref.resolve r base = some (recompose (resolveSpec base r)) := by
+  obtain ⟨vR, wR⟩ := split_valid G ok r hr
+  obtain ⟨vB, wB⟩ := split_valid G ok base (Matches.altL hb)
+  obtain ⟨PB, hsP, hP, hvB⟩ := (full_iff G base).mp hb
+  have hspB : split base = PB := by rw [← hP]; exact Lemmas.split_recompose PB (wf_of_valid G ok PB hvB)
+  obtain ⟨sb, hsb⟩ := Option.isSome_iff_exists.mp (hspB ▸ hsP)
+  unfold Ref.resolve resolveSpec transform
+  have hrp := reference_parts_recompose (split r) wR
+  rw [Lemmas.recompose_split] at hrp
+  simp only [hrp, rangesOf, hs, ha, Option.map_none, Option.isSome_none, Bool.false_eq_true, if_false]
+  have hsch : Ref.scheme base = sb := by
+    have := ref_scheme_full (split base) wB sb hsb
+    rwa [Lemmas.recompose_split] at this
+  rw [hsch]
+  have e1 := set_scheme_some_recompose (split r) wR sb
+  rw [Lemmas.recompose_split] at e1
+  simp only [Option.bind_eq_bind, e1, Option.bind_some]
+  have hsbv : Matches Rfc3986.scheme sb := vB.scheme sb hsb
+  have v1 := valid_set_scheme_some G ok okp (split r) vR sb hsbv
+  have w1 := wf_of_valid G ok _ v1
+  have hpath1 : Ref.path (recompose { split r with scheme := some sb }) = (split r).path :=
+    ref_path_recompose _ w1
+  have hne : (split r).path ≠ [] := by intro e; rw [e] at hp; simp [isAbs] at hp
+  have hrel : (Path.is_relative (split r).path && Path.is_empty (split r).path) = false := by
+    simp [Path.is_relative, is_absolute_eq, hp]
+  have habsM : Path.is_absolute (split r).path = true := by rw [is_absolute_eq]; exact hp
+  simp only [hpath1, hrel, Bool.false_eq_true, if_false, habsM, if_true]
+  have hauthB : Ref.authority base = none := by
+    have := ref_authority_recompose (split base) wB
+    rw [Lemmas.recompose_split] at this
+    rw [this, hab]
+  rw [hauthB]
+  have e2 := set_authority_none_recompose _ w1
+  have hpw : pathNoAuth { split r with scheme := some sb } = (split r).path := by
+    simp [pathNoAuth, ha]
+  rw [hpw] at e2
+  have hsame : ({ split r with scheme := some sb, authority := none, path := (split r).path } : Spec.Parts)
+      = { split r with scheme := some sb } := by
+    cases hsr : split r with
+    | mk sc au pa qu fr =>
+      rw [hsr] at ha
+      simp at ha
+      simp [ha]
+  simp only [e2, Option.bind_some]
+  have hm2 : Matches G.reference (recompose { split r with scheme := some sb }) :=
+    (reference_iff G _).mpr ⟨_, rfl, v1⟩
+  have hsp2 : split (recompose { split r with scheme := some sb }) = { split r with scheme := some sb } :=
+    Lemmas.split_recompose _ w1
+  rw [show ({ split r with scheme := some sb, authority := none, path := (split r).path } : Spec.Parts)
+      = { split r with scheme := some sb } from hsame]
+  have hat : ((schemeText (some sb) ++ authText (split r).authority).length == 0) = false := by
+    simp [schemeText]
+  have := rds_no_authority G ok _ hm2 (by rw [hsp2]; exact ha) (by rw [hsp2]; simp only; rw [hat]; exact hns)
+  rw [this, hsp2]
+  have hpe : (split r).path.isEmpty = false := by
+    cases hpp : (split r).path with
+    | nil => exact absurd hpp hne
+    | cons c t => rfl
+  simp [hs, ha, hsb, hab, hpe, hp]
+
 end IrefVerif.Lemmas
